@@ -567,6 +567,49 @@ def smatrix_case(m, x, thetas, phi):
     return res
 
 
+def stage_media_series(ctx):
+    """the same particle (absolute index, radius) in a series of media, the wavelength chosen so that k*r is bit-identical
+    (lambda = n_medium * lambda_0), one after the other in one process: in each medium the Lorenz-Mie matrix has to equal the
+    textbook series for ITS relative index, and (x <= 14) the one-sphere cluster theory"""
+    import numpy as np
+    from holopy.core import detector_points
+    from holopy.scattering import Sphere, calc_scat_matrix, Mie, Multisphere
+    rng = ctx.subrng("media")
+    for kcase in range(ctx.n(5, 40)):
+        lam0 = rng.choice([0.5, 0.4, 0.66])
+        x = gen_x(rng, 0.05, 12.0)
+        n = complex(rng.uniform(1.55, 2.2), rng.choice([0.0, 0.0, rng.uniform(0.001, 0.1)]))
+        r = x * lam0 / (2 * math.pi)
+        thetas = [0.0, math.pi] + [rng.uniform(0, math.pi) for _ in range(4)]
+        det = detector_points(theta=np.array(thetas), phi=np.full(len(thetas), 0.3))
+        media = [1.0, 1.25, 1.5, 1.0]
+        if rng.random() < 0.5:
+            media = media[::-1]
+        for nm in media:
+            wl = nm * lam0
+            sph = Sphere(n=(n if n.imag else n.real), r=r, center=(0, 0, 0))
+            Sm = calc_scat_matrix(det, sph, nm, wl, theory=Mie()).values
+            m = n / nm
+            ref = textbook_S(m if m.imag else m.real, x, thetas)
+            sc = float(np.max(np.abs(ref)))
+            mie = np.array([[Sm[i, 1, 1], Sm[i, 0, 0]] for i in range(len(thetas))])
+            d = float(np.max(np.abs(mie - ref)) / sc)
+            ctx.explored += 1
+            ctx.count("media-series")
+            ctx.nontriv(("media", kcase, nm))
+            meta = dict(kind="media", n=n, r=r, nm=nm, wl=wl, x=x, series=media, thetas=thetas)
+            if not d <= TOL_TEXTBOOK:
+                ctx.violation("x-smatrix:mie-textbook:media-series", "Lorenz-Mie differs from the textbook series (%.3g) for a sphere computed "
+                              "after the same sphere in another medium at the same size parameter" % d, dict(meta, deviation=d))
+            with warnings.catch_warnings():
+                warnings.simplefilter("ignore")
+                Ss = calc_scat_matrix(det, sph, nm, wl, theory=Multisphere(qeps1=1e-12, qeps2=1e-15, eps=1e-10)).values
+            d2 = float(np.max(np.abs(Ss - Sm)) / sc)
+            if not d2 <= TOL_MULTI_TIGHT:
+                ctx.violation("x-smatrix:multisphere_tight-mie:media-series", "Multisphere(one sphere) differs from Mie (%.3g) in a series of "
+                              "media at the same size parameter" % d2, dict(meta, deviation=d2))
+
+
 def stage_explore_smatrix(ctx):
     import numpy as np
     rng = ctx.subrng("x-smatrix")
@@ -574,6 +617,10 @@ def stage_explore_smatrix(ctx):
     for k in range(ctx.n(250, 2500)):
         kind, m = gen_m(rng)
         x = gen_x(rng, 1e-3, 100.0)
+        if k % 12 == 5:
+            # "round" inputs: the size parameter (or m*x) an exact multiple of pi / of pi/2, where sin or cos of it vanishes
+            # (r = 0.5 at wavelength 0.5 in air gives x = 2 pi)
+            x = math.pi * rng.choice([0.5, 1, 1, 2, 2, 3, 4, 1.5]) / (1.0 if k % 24 == 5 else (complex(m).real if not complex(m).imag else 1.0))
         if abs(complex(m).imag) * x > 25:
             ctx.count("x-smatrix:excluded-absorbing-overflow(scipy jn of large complex argument)")
             continue
@@ -859,7 +906,7 @@ def run(ctx):
     times = {}
     for tag, fn in (("scatcoeffs", stage_scatcoeffs), ("multi", stage_multi), ("albl", stage_albl),
                     ("layered_r", stage_layered_r), ("asm", stage_asm), ("fields", stage_fields),
-                    ("x-smatrix", stage_explore_smatrix), ("x-fields", stage_explore_fields),
+                    ("x-smatrix", stage_explore_smatrix), ("x-media-series", stage_media_series), ("x-fields", stage_explore_fields),
                     ("x-layered", stage_explore_layered)):
         if ONLY and tag not in ONLY:
             continue
